@@ -10,7 +10,8 @@ import gen_cube as G
 
 ID = "C04"
 LEAN_MODULES = ["CatiiProps.C04"]
-RULE = ("cases of C03 (dyadic stream) x every aggregate x both cube types x return_missing_as in {NaN, (0,False), "
+RULE = ("cases of C03 (dyadic stream; every fifth case arbitrary doubles, where rounding residues of the differencing must "
+        "not change the missing set; every second case passes the SAME fact/weights objects to all calls) x every aggregate x both cube types x return_missing_as in {NaN, (0,False), "
         "(-1,False), (0.5,False), plain 0}; checked: the per-cell missing rule against a direct computation over the "
         "rows of the cell (no rows / any-or-all rows missing / mean with zero valid weight), equality of the missing sets "
         "across formats, identical values off the missing set, sentinel / replacement value on it; excluded as "
@@ -90,7 +91,7 @@ def check(ctx, case, reqs, pend):
                     ctx.oracle_fail("%s.%s: values differ between format %s and the NaN format off the missing cells" % (
                         kind, func, ret), desc, cls="C04-formats")
             # model: rendering of every format (one-axis dims)
-            if multi or int(np.prod([s + 1 for s in ishape])) > 120:
+            if multi or case["general"] or int(np.prod([s + 1 for s in ishape])) > 120:
                 continue
             for ret in A.RETS:
                 if func == "valid_count" and ret[0] == "plain" and not case["ignore"]:
@@ -111,9 +112,19 @@ def check(ctx, case, reqs, pend):
 def run(ctx):
     core.load_catii()
     reqs, pend = [], []
-    for _ in range(ctx.n(45)):
+    for it in range(ctx.n(45)):
         case = A.gen_case(ctx.rng, multi_axis=ctx.rng.random() < 0.25, k=ctx.rng.choice([1, 1, 2, 2, 3]),
-                          N=ctx.rng.choice([1, 2, 3, 5, 8, 13]))
+                          N=ctx.rng.choice([1, 2, 3, 5, 8, 13]), general=(it % 5 == 4))
+        if it % 2:
+            case["share_args"] = True      # one fact / weights object re-used for every call of the case
+            ctx.hit("shared_argument_objects")
+        if case["general"]:
+            ctx.hit("general_stream")
+        check(ctx, case, reqs, pend)
+    for _ in range(ctx.n(5)):       # residue stream: inexact weight sums; empty cells must stay missing after differencing
+        case = A.gen_case(ctx.rng, k=2, N=ctx.rng.choice([9, 14, 25]), general="residue")
+        case["ignore"] = True if _ % 2 else case["ignore"]
+        ctx.hit("residue_stream")
         check(ctx, case, reqs, pend)
     if ctx.oracle_only:
         return
